@@ -48,8 +48,8 @@ func (e *Engine) Describe(prop string) sim.PropInfo {
 		info.Kinds = []string{"panic", "bad-signature-accepted", "unsigned-accepted-with-key-in-force", "good-signature-refused", "unsigned-refused-without-key"}
 		info.Assumptions = append(info.Assumptions, "PGP keys come from a committed pool of 5 RSA keys generated once with identity.GenerateKey")
 	case "C09":
-		info.Rule = "crafted identity version chains (1-3 versions) with per-version mutations: decreasing clocks, dropped clocks, no name and login, unsafe characters, wrong format version, not JSON, missing/extra tree entries, ref/id mismatch; crossed with local situation (absent, equal, behind); must be refused with the local identity untouched; a valid chain is the control; distinct = (mutation, position, situation)"
-		info.Kinds = []string{"invalid-identity-accepted", "diverged-changed-local", "ff-not-applied", "panic"}
+		info.Rule = "crafted identity version chains (1-3 versions) with per-version mutations: decreasing clocks, dropped clocks, no name and login, unsafe characters, wrong format version, not JSON, missing/extra tree entries, ref/id mismatch; crossed with local situation (absent, equal, behind); must be refused with the local identity untouched; a valid chain is the control; plus, per run, two of the eighteen shapes (1-2 common versions, 0-2 more locally, 0-2 more on the remote) of a pair of valid chains, whose merge is executed once without a fault and then once for EVERY read call it issued with that read failing: the local chain stays what it was or, when the remote extends it, becomes the remote chain; distinct = (mutation, position, situation)"
+		info.Kinds = []string{"invalid-identity-accepted", "diverged-changed-local", "history-not-append-only", "ff-not-applied", "panic"}
 	}
 	return info
 }
@@ -144,6 +144,13 @@ func (e *Engine) Generate(prop, tier string, seed uint64, run int) *sim.Plan {
 	}
 	if prop == "C08" {
 		e.genSigCases(p, r)
+	}
+	if prop == "C09" {
+		// two of the eighteen (common, local, remote) chain shapes per run, each merged once per read call failing
+		fr := sim.NewRand(sim.Mix(rs, 0xFA17))
+		for k := 0; k < 2; k++ {
+			addCase("identfault", "read-error", fr.Intn(18), 0)
+		}
 	}
 	if prop == "C07" || prop == "C09" {
 		for _, m := range identCatalogue {
@@ -423,6 +430,8 @@ func (e *Engine) Execute(p *sim.Plan, keepLog bool) (res *sim.RunResult) {
 				vs, note = e.identCase(p, st, res, keepLog)
 			case "sig":
 				vs, note = e.sigCase(p, st, res, keepLog)
+			case "identfault":
+				vs, note = e.identFaultCase(p, st, res, keepLog)
 			}
 		}()
 		if res.HarnessErr != "" {
